@@ -111,6 +111,10 @@ def do_request(name, shared):
         r = Intermediates().available['t2_2'].expand_itmd(
             indices='ijab', fully_expand=False).sympy
         tg = 'ijab'
+    elif name == 'itmd_t1_3':
+        r = Intermediates().available['t1_3'].expand_itmd(
+            indices='ia', fully_expand=True).sympy
+        tg = 'ia'
     elif name == 'spin_generic':
         # spin-integrated expression with numbered target names, contracted
         # indices replaced by fresh generic (spin-labelled) indices
